@@ -50,10 +50,12 @@ Definition w_K2 : bytes := hexpkt (bs "4500003412344000400612340a000001c0a801029
 Definition w_K3 : bytes := hexpkt (bs "4500002812344000400612340a000001c0a801029c4001bb01020304000000075010ffffabcd0000").
 (* K4: SYN+ACK, ECN bits in TOS and DF: code ecn,df,id+, SPEC df,id+,ecn *)
 Definition w_K4 : bytes := hexpkt (bs "4501002c12344000400612340a000001c0a801029c4001bb01020304000000076012ffffabcd0000020405b4").
-(* K5: SYN+ACK with a 3-byte SACK-permitted option: SPEC flags bad; and NS bit set: SPEC flags ecn *)
+(* K5: SYN+ACK with a 3-byte SACK-permitted option: SPEC flags bad.
+   w_K5_ns (NS bit set: SPEC flags ecn) is the witness of the repaired half of K5: see *_former_witness_agrees *)
 Definition w_K5_bad : bytes := hexpkt (bs "4500002c12344000400612340a000001c0a801029c4001bb01020304000000076012ffffabcd000004030100").
 Definition w_K5_ns : bytes := hexpkt (bs "4500002c12344000400612340a000001c0a801029c4001bb01020304000000076112ffffabcd0000020405b4").
-(* K7: MSS 1400: window 2810 = 2*(1400+5) is mtu*2 for the code, raw for the SPEC; 2880 = 2*(1400+40) the other
+(* former class K7 (repaired in /repo; these are now regression packets, see *_former_witness_agrees):
+   MSS 1400: window 2810 = 2*(1400+5) is mtu*2 for the code, raw for the SPEC; 2880 = 2*(1400+40) the other
    way round; IPv6: 2920 = 2*(1400+60) is raw for the code, mtu*2 for the SPEC *)
 Definition w_K7_a : bytes := hexpkt (bs "4500002c12344000400612340a000001c0a801029c4001bb010203040000000760120afaabcd000002040578").
 Definition w_K7_b : bytes := hexpkt (bs "4500002c12344000400612340a000001c0a801029c4001bb010203040000000760120b40abcd000002040578").
@@ -61,23 +63,15 @@ Definition w_K7_v6 : bytes := hexpkt (bs "600000000018064020010db800000000000000
 
 Definition K4s (p : bytes) (s : segment) : bool := K4 (process_ipv4_packet mtu_table p).
 
-Lemma Known_K1_refuted_c : refutes4 (only K1 [K2; K3; K4s w_K1; K5; K7]) w_K1 = true.
+Lemma Known_K1_refuted_c : refutes4 (only K1 [K2; K3; K4s w_K1; K5]) w_K1 = true.
 Proof. vm_compute. reflexivity. Qed.
-Lemma Known_K2_refuted_c : refutes4 (only K2 [K1; K3; K4s w_K2; K5; K7]) w_K2 = true.
+Lemma Known_K2_refuted_c : refutes4 (only K2 [K1; K3; K4s w_K2; K5]) w_K2 = true.
 Proof. vm_compute. reflexivity. Qed.
-Lemma Known_K3_refuted_c : refutes4 (only K3 [K1; K2; K4s w_K3; K5; K7]) w_K3 = true.
+Lemma Known_K3_refuted_c : refutes4 (only K3 [K1; K2; K4s w_K3; K5]) w_K3 = true.
 Proof. vm_compute. reflexivity. Qed.
-Lemma Known_K4_refuted_c : refutes4 (only (K4s w_K4) [K1; K2; K3; K5; K7]) w_K4 = true.
+Lemma Known_K4_refuted_c : refutes4 (only (K4s w_K4) [K1; K2; K3; K5]) w_K4 = true.
 Proof. vm_compute. reflexivity. Qed.
-Lemma Known_K5_bad_refuted_c : refutes4 (only K5 [K2; K3; K4s w_K5_bad; K7]) w_K5_bad = true.
-Proof. vm_compute. reflexivity. Qed.
-Lemma Known_K5_ns_refuted_c : refutes4 (only K5 [K1; K2; K3; K4s w_K5_ns; K7]) w_K5_ns = true.
-Proof. vm_compute. reflexivity. Qed.
-Lemma Known_K7_a_refuted_c : refutes4 (only K7 [K1; K2; K3; K4s w_K7_a; K5]) w_K7_a = true.
-Proof. vm_compute. reflexivity. Qed.
-Lemma Known_K7_b_refuted_c : refutes4 (only K7 [K1; K2; K3; K4s w_K7_b; K5]) w_K7_b = true.
-Proof. vm_compute. reflexivity. Qed.
-Lemma Known_K7_v6_refuted_c : refutes6 (only K7 [K1; K2; K3; K5]) w_K7_v6 = true.
+Lemma Known_K5_bad_refuted_c : refutes4 (only K5 [K2; K3; K4s w_K5_bad])  w_K5_bad  = true.
 Proof. vm_compute. reflexivity. Qed.
 
 (* hypotheses of the main theorems are satisfiable: a Linux-style SYN (20 option bytes, MTU 1500) and an
@@ -136,6 +130,57 @@ Proof.
   exists w_K4, s. split; [exact A|]. split; [apply only_sound in B; exact B|]. split; [exact C | exact D].
 Qed.
 Lemma Known_K5_bad_refuted_l : refuted4 K5. Proof. exact (refuted4_of _ _ _ Known_K5_bad_refuted_c). Qed.
-Lemma Known_K5_ns_refuted_l : refuted4 K5. Proof. exact (refuted4_of _ _ _ Known_K5_ns_refuted_c). Qed.
-Lemma Known_K7_refuted_l : refuted4 K7. Proof. exact (refuted4_of _ _ _ Known_K7_a_refuted_c). Qed.
-Lemma Known_K7_v6_refuted_l : refuted6 K7. Proof. exact (refuted6_of _ _ _ Known_K7_v6_refuted_c). Qed.
+
+(* ---- repaired classes: the old witnesses now agree (model = SPEC, in no known class) ---- *)
+Definition agrees4 (p : bytes) : bool :=
+  match decode4 p with
+  | Some s => negb (known s (process_ipv4_packet mtu_table p))
+              && bytes_eqb (show_out (process_ipv4_packet mtu_table p)) (show_out (render mtu_table s))
+  | None => false end.
+Definition agrees6 (p : bytes) : bool :=
+  match decode6 p with
+  | Some s => negb (known s (process_ipv6_packet mtu_table p))
+              && bytes_eqb (show_out (process_ipv6_packet mtu_table p)) (show_out (render mtu_table s))
+  | None => false end.
+Lemma agrees4_sound p : agrees4 p = true ->
+  exists s, decode4 p = Some s /\ known s (process_ipv4_packet mtu_table p) = false
+            /\ show_out (process_ipv4_packet mtu_table p) = show_out (render mtu_table s).
+Proof.
+  unfold agrees4. destruct (decode4 p) as [s|]; [|discriminate]. intros H.
+  apply andb_true_iff in H. destruct H as [H1 H2]. exists s. split; [reflexivity|].
+  split; [apply negb_true_iff; exact H1 | apply bytes_eqb_eq; exact H2].
+Qed.
+Lemma agrees6_sound p : agrees6 p = true ->
+  exists s, decode6 p = Some s /\ known s (process_ipv6_packet mtu_table p) = false
+            /\ show_out (process_ipv6_packet mtu_table p) = show_out (render mtu_table s).
+Proof.
+  unfold agrees6. destruct (decode6 p) as [s|]; [|discriminate]. intros H.
+  apply andb_true_iff in H. destruct H as [H1 H2]. exists s. split; [reflexivity|].
+  split; [apply negb_true_iff; exact H1 | apply bytes_eqb_eq; exact H2].
+Qed.
+Lemma K5_ns_former_witness_agrees_l :
+  exists s, decode4 w_K5_ns = Some s /\ known s (process_ipv4_packet mtu_table w_K5_ns) = false
+            /\ show_out (process_ipv4_packet mtu_table w_K5_ns) = show_out (render mtu_table s).
+Proof. apply agrees4_sound. vm_compute. reflexivity. Qed.
+Lemma K7_a_former_witness_agrees_l :
+  exists s, decode4 w_K7_a = Some s /\ known s (process_ipv4_packet mtu_table w_K7_a) = false
+            /\ show_out (process_ipv4_packet mtu_table w_K7_a) = show_out (render mtu_table s).
+Proof. apply agrees4_sound. vm_compute. reflexivity. Qed.
+Lemma K7_b_former_witness_agrees_l :
+  exists s, decode4 w_K7_b = Some s /\ known s (process_ipv4_packet mtu_table w_K7_b) = false
+            /\ show_out (process_ipv4_packet mtu_table w_K7_b) = show_out (render mtu_table s).
+Proof. apply agrees4_sound. vm_compute. reflexivity. Qed.
+Lemma K7_v6_former_witness_agrees_l :
+  exists s, decode6 w_K7_v6 = Some s /\ known s (process_ipv6_packet mtu_table w_K7_v6) = false
+            /\ show_out (process_ipv6_packet mtu_table w_K7_v6) = show_out (render mtu_table s).
+Proof. apply agrees6_sound. vm_compute. reflexivity. Qed.
+(* what the repaired code prints on them *)
+Lemma K7_a_shown : show_out (process_ipv4_packet mtu_table w_K7_a)
+  = bs "syn=- synack=4:64+0:0:1400:2810,*:mss:df,id+:0 mtu=- link=-".
+Proof. vm_compute. reflexivity. Qed.
+Lemma K7_b_shown : show_out (process_ipv4_packet mtu_table w_K7_b)
+  = bs "syn=- synack=4:64+0:0:1400:mtu*2,*:mss:df,id+:0 mtu=- link=-".
+Proof. vm_compute. reflexivity. Qed.
+Lemma K5_ns_shown : show_out (process_ipv4_packet mtu_table w_K5_ns)
+  = bs "syn=- synack=4:64+0:0:1460:65535,*:mss:df,id+,ecn:0 mtu=- link=-".
+Proof. vm_compute. reflexivity. Qed.
